@@ -80,6 +80,7 @@ def build(ws, kind):
         rx.timing_mark = 0.5
         d = rx.add_data({"ch1": {"values": np.arange(6.0)}, "ch2": {"values": np.arange(6.0) + 1}})
         rx.add_components_data({"dBdt": d})
+        rx.add_data({"Transmitter": {"values": np.arange(6.0) + 30}, "ID": {"values": np.arange(6.0) + 40}})
         return rx
     if kind == "dcip":
         from geoh5py.objects import CurrentElectrode, PotentialElectrode
@@ -91,6 +92,8 @@ def build(ws, kind):
         pot.ab_cell_id = np.array([1, 2, 3, 4, 5], dtype="int32")
         pot.current_electrodes = cur
         pot.add_data({"v": {"values": np.arange(5.0), "association": "CELL"}})
+        # ordinary data whose names are fragments of the reserved channel names
+        pot.add_data({"ID": {"values": np.arange(5.0) + 10, "association": "CELL"}, "Cell": {"values": np.arange(6.0) + 20}})
         return pot
     if kind == "tipper":
         from geoh5py.objects import TipperBaseStations, TipperReceivers
